@@ -54,7 +54,7 @@ def search(res, tier, seed, deep=False):
                 inferred = (mode != "none" and r.random() < 0.3)
                 if inferred: tO = tH = tF = None
                 base = R.run(d, obs, hist, fut, tO, tH, tF)
-                for val in ([0.5, 3.0] if mult else [0.5, -3.0, 40.0])[: (1 if tier == "quick" else 3)]:
+                for val in ([0.5, 86400.0, 3.0, 1e-5] if mult else [0.5, -3.0, 40.0])[: (2 if tier == "quick" else 4)]:
                     if mult:
                         out = R.run(d, obs, hist, fut * val, tO, tH, tF); want = base * val
                     else:
